@@ -21,8 +21,10 @@ TENSOR_TYPES = ["tensor", "iptensor", "qptensor"]
 OBS_NODAL, OBS_ROUTES, OBS_RT = 1, 2, 4
 
 # which property a failed requirement speaks about (event name may refine it)
-def attribute(req, event):
+def attribute(req, event, ev=None):
     name = req[0] if isinstance(req, list) else req
+    if name == "need" and ev is not None and (ev.get("st", {}).get("lim") or (ev.get("a") or {}).get("ll")):
+        return "C08"      # the needed set was computed under level limits
     if name in ("obs-nodal",):
         return "C01"
     if name in ("obs-routes",):
@@ -306,7 +308,11 @@ def validate_file(path):
             execs = []
             break
         m = re.search(r'"REJECTED_AT", (\d+)', r.out)
-        fails = re.findall(r'<<"FAIL", (\d+), (.*?)>>\n', r.out)
+        fails = []
+        for fm in re.finditer(r'<<\s*"FAIL",\s*(\d+),\s*((?:<<\s*)?"[^"]+")', r.out):
+            body = r.out[fm.start():fm.start() + 1500]
+            end = body.find("\n<<", 5)
+            fails.append((fm.group(1), fm.group(2).replace("<<", "").strip() + " | " + " ".join(body[:end if end > 0 else 1500].split())[:900]))
         inv = None
         if r.violated and r.violated != "postcondition" and not m:
             lm = re.findall(r"/\\ l = (\d+)", r.error_trace)
@@ -336,7 +342,7 @@ def validate_file(path):
 
 
 def req_name(reqtext):
-    m = re.match(r'<<"([^"]+)"', reqtext)
+    m = re.match(r'\s*"([^"]+)"', reqtext)
     if m:
         return m.group(1)
     return reqtext.strip('"')
@@ -358,16 +364,55 @@ def run_grid(ctx, scen_sets, obs_mask, prop, chunk=60, timeout=900):
             open(sp, "w").write("".join(scens[ci:ci + chunk]))
             files.append((label, sp, tp))
 
-    def exec_one(f):
-        label, sp, tp = f
-        p = vf.sh([drv, sp, tp, str(obs_mask), wd], timeout=timeout)
-        return p.returncode, p.stderr[-500:]
+    crashes = []
 
-    rcs = vf.parallel_map(exec_one, files)
-    for f, (rc, err) in zip(files, rcs):
-        if rc != 0:
-            # crash / hang of the library inside an action: the trace is truncated and the validation rejects it
-            ctx.extra.setdefault("driver_abnormal_exit", []).append({"file": f[1], "rc": rc, "stderr": err})
+    def exec_one(f):
+        """run the driver; after a crash / hang inside the library record it and resume with the remaining scenarios"""
+        label, sp, tp = f
+        text = open(sp).read()
+        scen_texts = ["SCEN" + t for t in text.split("SCEN")[1:]]
+        done_rows = []
+        start = 0
+        attempts = 0
+        while start < len(scen_texts) and attempts < 12:
+            attempts += 1
+            part_s, part_t = sp + ".part", tp + ".part"
+            open(part_s, "w").write("".join(scen_texts[start:]))
+            p = vf.sh([drv, part_s, part_t, str(obs_mask), wd], timeout=timeout)
+            rows = vf.read_ndjson_lenient(part_t)
+            if p.returncode == 0:
+                done_rows += rows
+                start = len(scen_texts)
+                break
+            # abnormal exit: the last started scenario is the one that crashed
+            nstarted = sum(1 for r in rows if r.get("e") == "Reset")
+            bad = start + max(nstarted - 1, 0)
+            # keep the complete executions only
+            keep, cur = [], []
+            for r in rows:
+                if r.get("e") == "Reset":
+                    cur = []
+                cur.append(r)
+                if r.get("e") == "End":
+                    keep += cur
+                    cur = []
+            done_rows += keep
+            lines = scen_texts[bad].strip().split("\n")
+            nev = len([r for r in cur if r.get("e") not in ("Reset",)])
+            crashes.append({"scenario_file": sp, "scenario": lines[0], "rc": p.returncode, "timed_out": p.timed_out,
+                            "events_before": [slim(r) for r in cur[-3:]], "script": lines[:nev + 3],
+                            "crashing_line_approx": lines[min(nev + 1, len(lines) - 1)]})
+            start = bad + 1
+        vf.write_ndjson(tp, done_rows)
+        return 0
+
+    vf.parallel_map(exec_one, files)
+    for c in crashes:
+        act = c["crashing_line_approx"].split()
+        act = [a for a in act if not a.startswith("@")]
+        sig = "crash:%s:%s" % (act[0] if act else "?", "hang" if c["timed_out"] else "rc=%s" % c["rc"])
+        ctx.report(sig, "the library crashed or hung inside a scripted call (no exception): %s" % json.dumps(c)[:1500], c)
+    ctx.extra["driver_crashes"] = len(crashes)
     res = vf.parallel_map(validate_file, [f[2] for f in files], nproc=16)
     foreign = {}
     for f, r in zip(files, res):
@@ -379,7 +424,7 @@ def run_grid(ctx, scen_sets, obs_mask, prop, chunk=60, timeout=900):
             ev = rj["event"] or {}
             names = [req_name(x) for x in rj["raw_req"]] or ([rj["invariant"]] if rj["invariant"] else ["truncated"])
             name = names[0]
-            owner = attribute(name, ev.get("e", "?")) if name != "truncated" else prop
+            owner = attribute(name, ev.get("e", "?"), ev) if name != "truncated" else prop
             if ev.get("r") == "timeout":
                 owner = "C08"       # a refinement / update call that does not return
             if rj["invariant"] == "TLimits":
